@@ -273,7 +273,7 @@ CONTENT = b"q 1 0 0 1 5 5 cm BT /F1 10 Tf 12 TL 10 100 Td (hi) Tj T* [(a) 20 (b)
 
 def seed_objects():
     return {
-        1: {"Type": "Catalog", "Pages": Ref(2), "Outlines": Ref(10), "PageLabels": {"Nums": [0, {"S": "D"}]}},
+        1: {"Type": "Catalog", "Pages": Ref(2), "Outlines": Ref(10), "PageLabels": {"Nums": [0, {"S": "D"}, 1, {"S": "r", "St": 2}]}},
         2: {"Type": "Pages", "Kids": [Ref(4)], "Count": 1, "MediaBox": [0, 0, 200, 200]},
         3: {"Type": "Font", "Subtype": "Type1", "BaseFont": "Helvetica", "Encoding": {"Type": "Encoding", "Differences": [65, "B"]}},
         4: {"Type": "Page", "Parent": Ref(2), "Contents": Ref(5), "Resources": Ref(6), "Rotate": 0},
@@ -316,7 +316,7 @@ def seed_objects2():
         20: {"Type": "Outlines", "First": Ref(21), "Last": Ref(22), "Count": 2},
         21: {"Title": b"One", "Parent": Ref(20), "Next": Ref(22), "Dest": [Ref(4), "XYZ", 0, 300, None]},
         22: {"Title": b"\xfe\xff\x00T\x00w\x00o", "Parent": Ref(20), "Prev": Ref(21), "A": {"S": "GoTo", "D": b"d1"}, "SE": Ref(25)},
-        23: {"Nums": [0, {"S": "r", "St": 3, "P": b"p-"}], "Limits": [0, 0]},
+        23: {"Nums": [0, {"S": "r", "St": 3, "P": b"p-"}, 1, {"S": "A"}], "Limits": [0, 1]},
         24: {"old": [Ref(4), "Fit"]},
         25: {"Type": "StructElem"},
         # Type 1 font without /Encoding whose encoding comes from the embedded font program
